@@ -27,21 +27,22 @@ theorem C01_file_roundtrip_cff_t2 (T : Cff.Tables) (q : T2.Quirks) (ext : T2.Gly
       r.font.outline.widths = some (gs.map fun g => Dy.ofInt (toInt16 (dyOfFixed g.width).trunc)) :=
   file_roundtrip_cff_t2 T q ext real matrix token ef caretOf F h
 
-/-- **The width of a charstring written by C04's encoder** (inside the domain of
-`C04_glyph_roundtrip`, Go quirks invisible on it): the default width, or nominal width + the
-encoded difference, within 2⁻¹⁷ of the glyph's width. -/
+/-- **The width of a charstring written by C04's encoder, decoded by the model of the Go decoder**:
+for a well-formed glyph with steps ≤ 32767 (C04-bigstep) and path deltas within ±32000 (`CmdBnd`,
+C05-clamp) the width is the default width, or nominal width + the encoded difference, within 2⁻¹⁷
+of the glyph's width.  No hypothesis about decoder quirks (bridge `C04_glyph_roundtrip_go`). -/
 theorem C01_t2_width_encoded (env : T2.Env) (K : Nat) (hK : 16 ≤ K) (w : Int) (hs vs : List Int)
     (cmds : List T2Enc.InCmd) (paths : List (List (Nat × T2.Op))) (bytes : List Nat)
     (h : T2Enc.encodeCharString K w hs vs cmds env.defaultWidth env.nominalWidth paths = some bytes)
     (hwf : T2Enc.GlyphWF hs vs cmds = true) (hsteps : T2Enc.stepsSmall K 0 0 cmds = true)
+    (hbnd : ∀ c ∈ T2Enc.encodeArgs K cmds, T2Enc.CmdBnd c)
     (hw : w ≠ env.defaultWidth * 2 ^ (K - 16) → T2Enc.Small K (w - env.nominalWidth * 2 ^ (K - 16)))
-    (hhs : T2Enc.hStemsSmall env K w hs = true) (hvs : T2Enc.vStemsSmall env K w hs vs = true)
-    (hq : T2.interp T2.goQuirks env bytes = T2.interp T2.strict env bytes) :
+    (hhs : T2Enc.hStemsSmall env K w hs = true) (hvs : T2Enc.vStemsSmall env K w hs vs = true) :
     ∃ g, T2.interp T2.goQuirks env bytes = .ok g ∧
       g.width = (if w = env.defaultWidth * 2 ^ (K - 16) then env.defaultWidth
         else (T2Enc.encNum (w - env.nominalWidth * 2 ^ (K - 16)) K).val + env.nominalWidth) ∧
       (w ≠ env.defaultWidth * 2 ^ (K - 16) → T2Enc.Close K g.width w) :=
-  t2_width_encoded env K hK w hs vs cmds paths bytes h hwf hsteps hw hhs hvs hq
+  t2_width_encoded env K hK w hs vs cmds paths bytes h hwf hsteps hbnd hw hhs hvs
 
 /-! ### non-vacuity: the example font, its two charstrings interpreted -/
 
